@@ -284,6 +284,9 @@ func Check(c Case) (vs hx.Vs, changed bool) {
 		return vs, false
 	}
 	changed = !bytes.Equal(e, v)
+	if !changed {
+		hashOnly = false // e.g. a byte "replaced" by the value it already had: nothing to detect
+	}
 	if c.Edit.Op == "swaphash" && bytes.Equal(c.Edit.Extra, c.Plain) {
 		hashOnly = false // same plaintext: same hash
 	}
